@@ -325,6 +325,54 @@ func TestC07(t *testing.T) {
 			}
 			f.ResetVars()
 		}
+		// the value the variable held before the mock is a heap object nothing else refers to: it survives every
+		// collection while the mock is in place (goom must keep it reachable) and is back, intact, after Reset
+		if fi%nshards == shard {
+			for v := 0; v < 2; v++ {
+				f.ResetVars()
+				tag := 500 + fi*10 + v
+				addr := f.SetHeap(v, tag)
+				saved := words(f.Vars[v])
+				c := map[string]interface{}{"iface": f.Name, "variable": v, "scenario": "previous value is a heap object referenced by the variable only"}
+				armed := w.gc.Arm(addr, fmt.Sprintf("%s/previous-value/var%d", f.Name, v))
+				b := mocker.Create()
+				var perr interface{}
+				func() {
+					defer func() { perr = recover() }()
+					f.Install(b, v, len(f.Methods)-1, "Return", 9)
+				}()
+				rep.Eval(1)
+				if perr != nil {
+					rep.Violate("C07/history-step-panicked", fmt.Sprintf("%s: mocking a variable that holds a heap implementation panicked: %v", f.Name, perr), c)
+				} else {
+					vmon.Churn(2000)
+					fired, _ := w.gc.Collect()
+					vmon.Churn(2000)
+					for _, l := range fired {
+						if strings.Contains(l, "/previous-value/") {
+							rep.Violate("C07/previous-value-collected-while-mocked", fmt.Sprintf("%s variable %d: the object the variable held before the mock was freed by the collector while the mock was in place (%s): Reset has nothing to put back", f.Name, v, l), c)
+						}
+					}
+					func() { defer func() { perr = recover() }(); b.Reset() }()
+					if perr != nil {
+						rep.Violate("C07/history-step-panicked", fmt.Sprintf("%s: Reset panicked: %v", f.Name, perr), c)
+					} else if got := words(f.Vars[v]); got != saved {
+						rep.Violate("C07/reset-did-not-restore", fmt.Sprintf("%s variable %d: words %#x after Reset, %#x before the mock", f.Name, v, got, saved), c)
+					} else if len(fired) == 0 {
+						if tg, ok := f.HeapTag(v); !ok || tg != 2*tag+3 {
+							rep.Violate("C07/reset-did-not-restore", fmt.Sprintf("%s variable %d: the restored value reads tag %d (ok=%v), want %d", f.Name, v, tg, ok, 2*tag+3), c)
+						}
+					}
+				}
+				if armed {
+					w.gc.Disarm(addr)
+					rep.Stat("previous_value_monitors_armed", 1)
+				}
+				func() { defer func() { recover() }(); b.Reset() }()
+				rep.Class(fmt.Sprintf("history/previous-heap-value/var%d", v))
+			}
+			f.ResetVars()
+		}
 		// two variables of the same type in one builder
 		if fi%nshards == shard {
 			f.ResetVars()
